@@ -26,7 +26,7 @@ theorem measured_blocks_timeline (s : SeqState) (op : Op) (hm : s.measured.isSom
   have hne : s.measured ≠ none := by
     intro h; rw [h] at hm; simp at hm
   cases op <;> simp [changesTimeline] at ht <;>
-    simp [stepRaw, hm, hne, fail, store, markNonEmpty, targetCore, delayCore, delayChecked]
+    simp [stepRaw, hm, hne, fail, store, markNonEmpty, targetCore, delayCore, delayChecked, Raw.orRollback]
 
 /-- **A channel name can be declared once on any device.** -/
 theorem name_once (s : SeqState) (n chId : Nat) (init : Option (List Nat))
@@ -94,7 +94,7 @@ theorem eom_only_eom_ops (s : SeqState) (n : ChName) (c : ChanState) (hm : s.mea
     (∀ e, (stepRaw s (.enableEom n e)).err = some .alreadyInEom) := by
   refine ⟨fun p proto => ?_, fun qs => ?_, fun e => ?_⟩
   · simp [stepRaw, hm, SeqState.validateChannel, hc, he, fail, store, markNonEmpty]
-  · simp [stepRaw, targetCore, hm, SeqState.validateChannel, hc, he, fail, store]
+  · simp [stepRaw, targetCore, hm, SeqState.validateChannel, hc, he, fail, store, Raw.orRollback]
   · simp [stepRaw, hm, SeqState.validateChannel, hc, he, fail]
 
 /-- **EOM pulses and EOM controls are refused outside EOM mode.** -/
@@ -113,7 +113,7 @@ theorem eom_pulse_needs_eom (s : SeqState) (n : ChName) (c : ChanState)
     | none => simp [stepRaw, hm, SeqState.validateChannel, hc, hl, fail, store, markNonEmpty]
     | some b => simp [stepRaw, hm, SeqState.validateChannel, hc, hl, hb b hl, fail, store, markNonEmpty]
   · simp [stepRaw, hm, SeqState.validateChannel, hc, he, fail]
-  · simp [stepRaw, hm, SeqState.validateChannel, hc, he, fail, store]
+  · simp [stepRaw, hm, SeqState.validateChannel, hc, he, fail, store, Raw.orRollback]
 
 /-- **A local channel needs a target before its first pulse** (a channel without any
 instruction refuses pulses, delays and EOM pulses with "no target"). -/
@@ -132,8 +132,8 @@ theorem undeclared_refused (s : SeqState) (n : ChName) (hm : s.measured.isSome =
     (∀ qs, (stepRaw s (.target qs n)).err = some .notDeclared) := by
   refine ⟨fun p proto => ?_, fun d r => ?_, fun qs => ?_⟩
   · simp [stepRaw, hm, SeqState.validateChannel, hc, fail, store, markNonEmpty]
-  · simp [stepRaw, delayCore, delayChecked, hm, SeqState.validateChannel, hc, fail, store]
-  · simp [stepRaw, targetCore, hm, SeqState.validateChannel, hc, fail, store]
+  · simp [stepRaw, delayCore, delayChecked, hm, SeqState.validateChannel, hc, fail, store, Raw.orRollback]
+  · simp [stepRaw, targetCore, hm, SeqState.validateChannel, hc, fail, store, Raw.orRollback]
 
 /-! ### Non-vacuity -/
 
